@@ -120,6 +120,10 @@ def run(prog: Program, rep: Report, tier: str):
     # conditioner's parameter vector is built with NonTrainable nodes as (static) leaves
     from .c09 import rule_constructor
     rule_constructor(prog, rep, R="C11.conditioner")
+    # mixture weights stay normalised for every value of the raw array: the normaliser is recomputed from the wrapped
+    # argument at every unwrap
+    from .c05 import rule_mix
+    rule_mix(prog, rep, R="C11.mixture")
     if tier == "thorough":
         from ..audit import audit_generic
         audit_generic(prog, rep, "C11")
@@ -475,8 +479,8 @@ def rule_knots(prog, rep):
                   f"{fld} is {show(tt, 200)}")
 
 
-def rule_reparam(prog, rep):
-    rep.rule("C11.reparam", "BijectionReparam stores bijection^-1(value) (checked for validity) and unwrap applies the "
+def rule_reparam(prog, rep, R="C11.reparam"):
+    rep.rule(R, "BijectionReparam stores bijection^-1(value) (checked for validity) and unwrap applies the "
                             "bijection: constructor arguments are reproduced given C01 for the reparameterising "
                             "bijection", minimum=3)
     c = prog.cls(W + "BijectionReparam")
@@ -485,11 +489,11 @@ def rule_reparam(prog, rep):
     f = Interp(prog, no_inline=noin).eval_init(c, [A, B], {"invert_on_init": C(True)})
     site = method_site(prog, c, "__init__")
     want = ("call", ("ext", W + "_apply_inverse_and_check_valid"), (), (("arr", A), ("bijection", B)))
-    compare(rep, "C11.reparam", site, "BijectionReparam.__init__:arr", f.get("arr", ("unknown", "missing")), want, "stored value")
-    compare(rep, "C11.reparam", site, "BijectionReparam.__init__:bijection", f.get("bijection", ("unknown", "missing")), B, "bijection")
+    compare(rep, R, site, "BijectionReparam.__init__:arr", f.get("arr", ("unknown", "missing")), want, "stored value")
+    compare(rep, R, site, "BijectionReparam.__init__:bijection", f.get("bijection", ("unknown", "missing")), B, "bijection")
     got = Interp(prog).eval_method(c, "unwrap", [])
     want = eval_ref_method(prog, c, "def unwrap(self):\n    return self.bijection._vectorize.transform(self.arr)\n", [])
-    compare(rep, "C11.reparam", method_site(prog, c, "unwrap"), "BijectionReparam.unwrap", got, want, "unwrap")
+    compare(rep, R, method_site(prog, c, "unwrap"), "BijectionReparam.unwrap", got, want, "unwrap")
     m, fn = prog.func(W + "_apply_inverse_and_check_valid")
     got = Interp(prog).eval_function(W + "_apply_inverse_and_check_valid", [B, A])
     want = eval_ref_function(prog, m, "def _apply_inverse_and_check_valid(bijection, arr):\n"
@@ -502,10 +506,10 @@ def rule_reparam(prog, rep):
                      if s[0] == "call" and s[1] == ("ext", "equinox.error_if") else None)
     g, w2 = nomsg(got), nomsg(want)
     if equal(g, w2):
-        rep.holds("C11.reparam", f"{m.relpath}:{fn.lineno}", "_apply_inverse_and_check_valid",
+        rep.holds(R, f"{m.relpath}:{fn.lineno}", "_apply_inverse_and_check_valid",
                   "error_if(inverse(arr), isfinite(arr) & ~isfinite(inverse(arr)))")
     else:
-        rep.violated("C11.reparam", f"{m.relpath}:{fn.lineno}", "_apply_inverse_and_check_valid", explain(g, w2))
+        rep.violated(R, f"{m.relpath}:{fn.lineno}", "_apply_inverse_and_check_valid", explain(g, w2))
 
 
 GUARDS = [  # (class, ctor positional args, kwargs, predicate builder, description)
